@@ -4,7 +4,8 @@ harness/src/bin/life.rs), encoder/decoder, log parser, generator building blocks
 A script is described by a dict
   {"mods": [mod, ..] (2..4), "inj": [(kind, m, time, payload)..]}
   mod  = {"catch": 0|1, "join": mask (bit id: task id is join()ed, else try_join()ed), "flags": 0..15 (the other four Stereotyp
-          flags: on_panic_drop, on_panic_restart, on_panic_drop_submodules, on_panic_inform_parent), "stages": 1..3, "bud": B, "start": [prog..], "msg": [prog..], "tasks": [prog..], "end": prog}
+          flags: on_panic_drop, on_panic_restart, on_panic_drop_submodules, on_panic_inform_parent),
+          "rsend": 0 | 1 | 2 (Module::reset calls nothing / schedule_in / send_in: the library panics), "stages": 1..3, "bud": B, "start": [prog..], "msg": [prog..], "tasks": [prog..], "end": prog}
   prog = [act..];  act = ("log", x) | ("send", far, d, x) | ("sched", d, x) | ("sleep", d) | ("shutdown",)
                          | ("restart", d) | ("panic",) | ("quiet",) | ("setcatch", 0|1)
                          | ("sched_past", d, x) | ("send_past", far, d, x) | ("restart_past", d)   calls of schedule_at / send_at /
@@ -13,6 +14,7 @@ A script is described by a dict
                          | ("prop_read", j)   log the property "p" of module j % k (always 100 + its index)
                          | ("prop_panic", 0|1)   panic inside a Prop::update (0) / Prop::map (1) closure on the own property
                          | ("prop_reenter",)   second access to the own property inside a Prop::update closure (library panic)
+                         | ("probe_send", x)   zero-delay send through the channel whose ChannelProbe panics
                            the library panics inside the call (PANICS: the actions that end a callback / task with a panic)
   inj kind: 0 handle_message_on(m) | 1 add_message_onto(m.out) | 2 add_message_onto(m.far)
 Topology: ring; m.out -> (m+1).in ; m.far -> (m+1).via -> (m+2).fin.
@@ -24,7 +26,7 @@ CALLS = {R_START, R_MSG, R_TASK, R_TIMER, R_END}
 OPS = {"log": 0, "send": 1, "sched": 2, "sleep": 3, "shutdown": 4, "restart": 5, "panic": 6, "quiet": 7}
 
 
-PANICS = ("panic", "sched_past", "send_past", "restart_past", "prop_panic", "prop_reenter")
+PANICS = ("panic", "sched_past", "send_past", "restart_past", "prop_panic", "prop_reenter", "probe_send")
 
 
 def lp(xs):
@@ -55,6 +57,8 @@ def enc_act(a):
         return [14, a[1], 0, 0]
     if k == "prop_reenter":
         return [15, 0, 0, 0]
+    if k == "probe_send":
+        return [16, 0, 0, a[1]]
     if k == "sched_past":
         return [10, 0, a[1], a[2]]
     if k == "send_past":
@@ -79,7 +83,8 @@ def enc_progs(ps):
 
 
 def enc_mod(m):
-    return ([m.get("catch", 0) + 2 * m.get("join", 0) + 16 * m.get("flags", 0), m.get("stages", 1) - 1, m.get("bud", 0)] + enc_progs(m.get("start", []))
+    rs = m.get("rsend", 0)
+    return ([m.get("catch", 0) + 2 * m.get("join", 0) + 16 * m.get("flags", 0) + (256 if rs else 0) + (512 if rs == 2 else 0), m.get("stages", 1) - 1, m.get("bud", 0)] + enc_progs(m.get("start", []))
             + enc_progs(m.get("msg", [])) + enc_progs(m.get("tasks", [])) + enc_prog(m.get("end", [])))
 
 
@@ -130,17 +135,19 @@ class Cur:
 def dec_prog(v):
     out = []
     for i in range(0, len(v) - len(v) % 4, 4):
-        o, a, b, c = v[i] % 16, v[i + 1], v[i + 2], v[i + 3]
+        o, a, b, c = v[i] % 20, v[i + 1], v[i + 2], v[i + 3]
         sc = (lambda bit: ("setcatch", bit, a % 16) if a % 16 else ("setcatch", bit))
         out.append([("log", c), ("send", a % 2, b, c), ("sched", b, c), ("sleep", b), ("shutdown",), ("restart", b),
                     ("panic",), ("quiet",), sc(1), sc(0), ("sched_past", b, c), ("send_past", a % 2, b, c), ("restart_past", b),
-                    ("prop_read", a), ("prop_panic", a % 2), ("prop_reenter",)][o])
+                    ("prop_read", a), ("prop_panic", a % 2), ("prop_reenter",), ("probe_send", c), ("probe_send", c), ("probe_send", c),
+                    ("probe_send", c)][o])
     return out
 
 
 def dec_mod(c):
     hdr = c.next()
-    m = {"catch": hdr % 2, "join": (hdr // 2) % 8, "flags": (hdr // 16) % 16, "stages": 1 + c.next() % 3, "bud": c.next()}
+    m = {"catch": hdr % 2, "join": (hdr // 2) % 8, "flags": (hdr // 16) % 16,
+         "rsend": (1 + (hdr >> 9) % 2) if (hdr >> 8) % 2 else 0, "stages": 1 + c.next() % 3, "bud": c.next()}
     m["start"] = [dec_prog(b) for b in c.blobs()]
     m["msg"] = [dec_prog(b) for b in c.blobs()]
     m["tasks"] = [dec_prog(b) for b in c.blobs()]
@@ -184,6 +191,7 @@ R_VAR = 18
 R_SETCATCH = 19
 R_TEND = 20       # (20, m, id, inc, how): task ended; how 0 completed | 1 panics now | 2 future dropped unfinished
 R_SPAWN = 21      # (21, m, id, inc, must): task spawned, handle given to join (must = 1) / try_join (0)
+R_RPANIC = 22     # (22, m, 0, 0, 0): Module::reset of m is about to call schedule_in / send_in (the library panics)
 
 
 def records3(out):
@@ -208,7 +216,7 @@ def records(out):
     return a, b
 
 
-NAMES = {20: "taskend", 21: "spawn", 19: "setcatch", 18: "|variant|", 1: "start", 2: "msg", 3: "task", 4: "timer", 5: "end", 6: "reset", 7: "log", 8: "send", 9: "sched", 10: "shut",
+NAMES = {22: "resetpanic", 20: "taskend", 21: "spawn", 19: "setcatch", 18: "|variant|", 1: "start", 2: "msg", 3: "task", 4: "timer", 5: "end", 6: "reset", 7: "log", 8: "send", 9: "sched", 10: "shut",
          11: "panic", 12: "quiet", 13: "cancel", 14: "ev", 15: "err", 16: "FUEL", 17: "||"}
 
 
@@ -221,7 +229,7 @@ def pretty(script):
     s = ""
     for i, m in enumerate(d["mods"]):
         s += "m%d{%sstages=%d bud=%d start=[%s] msg=[%s] tasks=[%s] end=[%s]} " % (
-            i, ("catch " if m["catch"] else "") + ("join=%d " % m["join"] if m.get("join") else "") + ("flags=%d " % m["flags"] if m.get("flags") else ""), m["stages"], m["bud"], " | ".join(pretty_prog(p) for p in m["start"]),
+            i, ("catch " if m["catch"] else "") + ("join=%d " % m["join"] if m.get("join") else "") + ("flags=%d " % m["flags"] if m.get("flags") else "") + ("reset-sends " if m.get("rsend") else ""), m["stages"], m["bud"], " | ".join(pretty_prog(p) for p in m["start"]),
             " | ".join(pretty_prog(p) for p in m["msg"]), " | ".join(pretty_prog(p) for p in m["tasks"]), pretty_prog(m["end"]))
     s += "inject " + " ".join("%s%d@%d(%d)" % (["direct->m", "m.out:", "m.far:"][k], m, t, x) for k, m, t, x in d["inj"])
     return s
@@ -272,9 +280,11 @@ def gen_panic(rng):
         return ("send_past", rng.randint(0, 1), rng.choice([0, 1, 5]), rng.randint(0, 3))
     if r < 0.83:
         return ("restart_past", rng.choice([0, 0, 2, 50]))
-    if r < 0.93:
+    if r < 0.90:
         return ("prop_panic", rng.randint(0, 1))
-    return ("prop_reenter",)
+    if r < 0.95:
+        return ("prop_reenter",)
+    return ("probe_send", rng.randint(0, 3))
 
 
 def gen_act(rng, k_msgs, in_task, p_ctl):
@@ -302,7 +312,8 @@ def gen_prog(rng, k_msgs, in_task, p_ctl, maxlen=4):
 def gen_mod(rng, p_ctl, joins=False):
     nm = rng.choice([1, 2, 3, 4])
     return {"catch": rng.randint(0, 1), "join": rng.choice([0, 1, 2, 3, 5, 7]) if joins else 0,
-            "flags": rng.choice([0, 6, 8, 9, 15, rng.randrange(16)]) if joins else 0, "stages": rng.choice([1, 1, 2, 3]), "bud": rng.choice([0, 2, 4, 6, 10]),
+            "flags": rng.choice([0, 6, 8, 9, 15, rng.randrange(16)]) if joins else 0,
+            "rsend": rng.choice([0, 0, 0, 1, 2]) if joins else 0, "stages": rng.choice([1, 1, 2, 3]), "bud": rng.choice([0, 2, 4, 6, 10]),
             "start": [gen_prog(rng, nm, False, p_ctl / 2) for _ in range(rng.randint(0, 3))],
             "msg": [gen_prog(rng, nm, False, p_ctl) for _ in range(nm)],
             "tasks": [gen_prog(rng, nm, True, p_ctl, 5) for _ in range(rng.choice([0, 1, 1, 2, 3]))],
